@@ -519,9 +519,11 @@ func HarnessC19MethodPairs() {
 	}
 	// arguments: a self-loop at an instant, the same one nanosecond later, the
 	// immutable one, and another subject
-	args := []*spec{mk('a', 'p', 'a', 1, 0), mk('a', 'p', 'a', 1, 1), mk('a', 'p', 'a', 0, 0), mk('b', 'p', 'a', 1, 0)}
+	// ... and the last one with subject and object exchanged (the same two node
+	// arguments in the other order)
+	args := []*spec{mk('a', 'p', 'a', 1, 0), mk('a', 'p', 'a', 1, 1), mk('a', 'p', 'a', 0, 0), mk('b', 'p', 'a', 1, 0), mk('a', 'p', 'b', 1, 0)}
 	stored := []*spec{args[0], args[3], mk('a', 'q', 'b', 0, 0), mk('b', 'r', 'a', 0, 0)}
-	all := append(append([]*spec{}, stored...), args[1], args[2])
+	all := append(append([]*spec{}, stored...), args[1], args[2], args[4])
 	ms := memoization.New(memory.NewStore())
 	ps := memory.NewStore()
 	mg, e1 := ms.NewGraph(ctx, "?g")
